@@ -1,0 +1,35 @@
+//go:build verif
+// +build verif
+
+// Contracts for deductive verification (govc, /verif). Comment-only file.
+
+package state
+
+// ---- C17: the irreversible height is advanced, for the block being applied,
+// with the currently confirmed height and window, in the same batch as (and
+// before) the pointer update, on each of the three block-apply paths.
+
+//@ func State.PlayForMiner
+//@   property C17
+//@   at Meta.UpdateNextIrreversibleBlockHeight assert irr_args_current: $0 == block.Height && $1 == t.meta.Meta.IrreversibleBlockHeight && $2 == t.meta.Meta.IrreversibleSlideWindow
+//@   at State.updateLatestBlockid assert irr_update_dominates_pointer: sel(irrUpdFor, ifacePtr($1)) == block.Height && bytesEq($0, block.Blockid)
+
+//@ func State.PlayAndRepost
+//@   property C17
+//@   at Meta.UpdateNextIrreversibleBlockHeight assert irr_args_current: $0 == block.Height && $1 == t.meta.Meta.IrreversibleBlockHeight && $2 == t.meta.Meta.IrreversibleSlideWindow
+//@   at State.updateLatestBlockid assert irr_update_dominates_pointer: sel(irrUpdFor, ifacePtr($1)) == block.Height && bytesEq($0, block.Blockid)
+
+//@ func State.procTodoBlkForWalk
+//@   property C17
+//@   at Meta.UpdateNextIrreversibleBlockHeight assert irr_args_current: $0 == todoBlk.Height && $1 == t.meta.Meta.IrreversibleBlockHeight && $2 == t.meta.Meta.IrreversibleSlideWindow
+//@   at State.updateLatestBlockid assert irr_update_dominates_pointer: sel(irrUpdFor, ifacePtr($1)) == todoBlk.Height && bytesEq($0, todoBlk.Blockid)
+
+// A walk without the prune flag never undoes a block at or below the
+// irreversible height: every undo step of a block is guarded.
+//@ func State.procUndoBlkForWalk
+//@   property C17
+//@   at Database.NewBatch assert guard_reads_current_height: ledgerPrune || undoBlk.Height > t.meta.Meta.IrreversibleBlockHeight
+//@   at State.undoTxInternal assert undo_guarded: ledgerPrune || undoBlk.Height > curIrreversibleBlockHeight
+//@   at State.undoPayFee assert undo_guarded: ledgerPrune || undoBlk.Height > curIrreversibleBlockHeight
+//@   at State.updateLatestBlockid assert undo_guarded: ledgerPrune || undoBlk.Height > curIrreversibleBlockHeight
+//@   at Meta.UpdateNextIrreversibleBlockHeightForPrune assert prune_only: ledgerPrune
